@@ -32,6 +32,17 @@ Theorem C14_writer_log_accepted :
 Proof. exact wmw_run_accepted. Qed.
 Print Assumptions C14_writer_log_accepted.
 
+(* the same, on wm_run = the log oldest first, as the correspondence driver prints and compares it *)
+Theorem C14_writer_run_accepted :
+  forall (summ1 : N -> list N -> wm_sentry) (summN : bool -> list wm_sentry -> wm_sentry) (p : list wop),
+  let st := fst (wm_run_full summ1 summN p) in
+  wm_st_fault st = false ->
+  (forall off b, In (WmWrite off b) (wm_st_log st) ->
+     off + N.of_nat (length b) < 18446744073709551616 /\ N.of_nat (length b) < 4294967296) ->
+  wo_check_log (map wmw_to_wo (wm_run summ1 summN p)) = true.
+Proof. exact wmw_wm_run_accepted. Qed.
+Print Assumptions C14_writer_run_accepted.
+
 (* (a') jls_wr_open; p   (no close: the writer is still open, or was killed between two calls) *)
 Theorem C14_writer_log_accepted_open :
   forall (summ1 : N -> list N -> wm_sentry) (summN : bool -> list wm_sentry -> wm_sentry) (p : list wop),
